@@ -250,6 +250,9 @@ fn triple_case<P: G>(cfg: Cfg, seeded: bool, tier: Tier) -> Box<dyn Case> {
             g[k] = g[k].g_add(&pc.h_base);
             gens_variants.push((format!("G{}+=H", k), pc_gens_from(pc.h_base.clone(), g)));
         }
+        // (A generator object whose point and cached encoding disagree is not "another commitment generator": such an object
+        // is produced by no constructor. On the pinned tree the encoding of H is read from the first statement of a chunk only,
+        // so an edited encoding on a later member goes unnoticed; outside this property, see DESIGN.md 10.4, wave 9.)
         for (name, pc2) in gens_variants {
             let params2 = P::params(cfg.n, cfg.c, pc2).unwrap();
             if let Ok(st) = P::statement(params2, built.commitments.clone(), wit.promises.clone(), wit.seed) {
